@@ -84,14 +84,15 @@ ITEMS = location_types() + budget_types() + error_types() + [
                 Err(_) => true }'''),
                   ('rest_of_state_untouched', '''final(self).have_key == old(self).have_key && final(self).seen == old(self).seen
                 && final(self).pending == old(self).pending && final(self).merge_stack == old(self).merge_stack
-                && final(self).flushing_merges == old(self).flushing_merges && final(self).pending_value == old(self).pending_value''')],
+                && final(self).flushing_merges == old(self).flushing_merges && final(self).pending_value == old(self).pending_value
+                && final(self).cfg == old(self).cfg''')],
          loops={1: dict(invariant=[('cursor_tracks_scan', '''({ let k = s0.len() - self.ev.rest().len();
                     &&& 0 <= depth && 1 <= k <= s0.len() && s0.len() <= i32::MAX && depth <= k
                     &&& self.ev.rest() == s0.skip(k) && scan(s0, 1, 1) == scan(s0, k, depth as int)
                     &&& s0.len() > 0 && is_start(s0[0]) && s0 == old(self).ev.rest()
                     &&& self.have_key == old(self).have_key && self.seen == old(self).seen && self.pending == old(self).pending
                     &&& self.merge_stack == old(self).merge_stack && self.flushing_merges == old(self).flushing_merges
-                    &&& self.pending_value == old(self).pending_value })''')],
+                    &&& self.pending_value == old(self).pending_value && self.cfg == old(self).cfg })''')],
                         decreases='self.ev.rest().len()')},
          canaries=['skips_exactly_one_node']),
     dict(src=D, path='impl KeyNode/fn fingerprint', props=['C04', 'C01'],
@@ -250,7 +251,8 @@ ITEMS = location_types() + budget_types() + error_types() + [
     # sources from last to first).  The node-level correspondence with the event stream is not proved
     # in this revision; the flattening order is (obligation `merge_sources_last_to_first`).
     dict(src=D, path='fn pending_entries_from_live_events', trusted=True, props=[],
-         ensures=[('only_consumes', 'r is Ok ==> final(ev).rest().len() <= old(ev).rest().len()')]),
+         ensures=[('only_consumes', 'r is Ok ==> final(ev).rest().len() <= old(ev).rest().len()'),
+                  ('entries_are_captured_nodes', 'r is Ok && old(ev).rest().len() <= i32::MAX ==> pending_ok(r->Ok_0@)')]),
     dict(src=D, path='fn collect_entries_from_map', props=['C03', 'C01'],
          requires=[('stream_below_2_64_events', 'old(ev).rest().len() <= usize::MAX')],
          proofs=[
@@ -329,4 +331,81 @@ ITEMS = location_types() + budget_types() + error_types() + [
                 else { s.len() >= 2 && s[1] is MapEnd && match s[0] {
                         Ev::Scalar { value, style, .. } => spec_nullish(value@, style), _ => false } } })''')],
          canaries=['C05:unit_variant_accepts_only_nothing_or_a_null']),
+    # ---- MA::next_key_seed (duplicate-key policy, merge flush); K: DeserializeSeed is monomorphised to an opaque seed
+    dict(src=D, path='fn pending_entries_from_live_events', id='pending_entries_from_live_events#decl2', trusted=True, props=[], rename='pending_entries_from_live_events2',
+         ensures=[('only_consumes', 'r is Ok ==> final(ev).rest().len() <= old(ev).rest().len()')]) if False else None,
+    dict(src=D, path=MA + 'impl MA/fn deserialize_recorded_key', trusted=True, props=[],
+         rewrites=[(r"fn deserialize_recorded_key<'de2, K>\(", 'fn deserialize_recorded_key(', 1, 'R9'),
+                   (r'seed: K,', 'seed: KeySeed,', 1, 'R9'), (r"Vec<Ev<'de2>>", "Vec<Ev<'de>>", 1, 'R9'),
+                   (r'Result<K::Value, Error>', 'Result<KeyVal, Error>', 1, 'R9'),
+                   (r"where\s+K: de::DeserializeSeed<'de2>,", '', 1, 'R9')],
+         ensures=[('map_access_state_untouched', '''final(self).ev.rest() == old(self).ev.rest() && final(self).seen == old(self).seen
+                && final(self).pending == old(self).pending && final(self).merge_stack == old(self).merge_stack
+                && final(self).flushing_merges == old(self).flushing_merges && final(self).cfg == old(self).cfg
+                && final(self).have_key == old(self).have_key && final(self).pending_value == old(self).pending_value''')]),
+    # `entries.into_iter().rev()` + push_front: assumed to put the batch in front of the queue, in order
+    dict(src=D, path=MA + 'impl MA/fn enqueue_entries', trusted=True, props=[],
+         ensures=[('batch_goes_to_the_front_in_order', '''final(self).pending@ == entries@ + old(self).pending@
+                && final(self).ev.rest() == old(self).ev.rest() && final(self).seen == old(self).seen
+                && final(self).merge_stack == old(self).merge_stack && final(self).flushing_merges == old(self).flushing_merges
+                && final(self).cfg == old(self).cfg && final(self).have_key == old(self).have_key
+                && final(self).pending_value == old(self).pending_value''')]),
+    dict(src=D, path=MA + 'impl MA/fn enqueue_next_merge_batch', props=['C03', 'C01'],
+         ensures=[('C03:newest_non_empty_merge_batch_is_flushed_next', '''({
+                let b = old(self).merge_stack@; let k = newest_nonempty(b);
+                if k < 0 { !r && final(self).pending@ == old(self).pending@ && final(self).merge_stack@.len() == 0 }
+                else { r && final(self).pending@ == b[k]@ + old(self).pending@ && final(self).merge_stack@ == b.take(k) } })'''),
+                  ('frame', '''final(self).ev.rest() == old(self).ev.rest() && final(self).seen == old(self).seen
+                && final(self).flushing_merges == old(self).flushing_merges && final(self).cfg == old(self).cfg
+                && final(self).have_key == old(self).have_key && final(self).pending_value == old(self).pending_value''')],
+         loops={1: dict(invariant=[('skipping_empty_batches', '''self.merge_stack@.len() <= old(self).merge_stack@.len()
+                    && self.merge_stack@ == old(self).merge_stack@.take(self.merge_stack@.len() as int)
+                    && newest_nonempty(self.merge_stack@) == newest_nonempty(old(self).merge_stack@)
+                    && self.pending@ == old(self).pending@ && self.ev.rest() == old(self).ev.rest() && self.seen == old(self).seen
+                    && self.flushing_merges == old(self).flushing_merges && self.cfg == old(self).cfg
+                    && self.have_key == old(self).have_key && self.pending_value == old(self).pending_value''')],
+                        ensures=[('all_empty', 'self.merge_stack@.len() == 0')],
+                        decreases='self.merge_stack@.len()')},
+         canaries=['C03:newest_non_empty_merge_batch_is_flushed_next']),
+    dict(src=D, path=MA + 'impl de::MapAccess for MA/fn next_key_seed', id='MA::next_key_seed', impl_header="impl<'de, 'e> MA<'de, 'e>",
+         props=['C04', 'C03', 'C01'],
+         attrs='#[verifier::exec_allows_no_decreases_clause]',
+         rewrites=[(r'fn next_key_seed<K>\(&mut self, seed: K\) -> Result<Option<K::Value>, Error>\s*where\s*K: de::DeserializeSeed<\'de>,',
+                    'fn next_key_seed(&mut self, seed: KeySeed) -> Result<Option<KeyVal>, Error>', 1, 'R9'),
+                   (r'self\.seen\.contains\(&fingerprint\)', 'seen_contains(&self.seen, &fingerprint)', None, 'R8'),
+                   (r'self\.seen\.insert\(fingerprint\);', 'seen_insert(&mut self.seen, fingerprint);', None, 'R8'),
+                   (r'key_node\s*\.fingerprint\(\)\s*\.stringy_scalar_value\(\)\s*\.map\(\|s\| s\.to_owned\(\)\)', 'fp_display_key(key_node.fingerprint().get())', None, 'R8'),
+                   (r'fingerprint\s*\.stringy_scalar_value\(\)\s*\.map\(\|s\| s\.to_owned\(\)\)', 'fp_display_key(&fingerprint)', None, 'R8'),
+                   (r'\bother\.clone\(\)', 'ev_clone(other)', None, 'R8'),
+                   (r'matches!\(\*fingerprint,', 'matches!(*fingerprint.get(),', None, 'R15'),
+                   (r'match &\*fingerprint \{', 'match fingerprint.get() {', None, 'R15'),
+                   (r'events\.drain\(vs\.\.ve\)\.collect\(\)', 'vec_drain_ev(&mut events, vs, ve)', None, 'R8'),
+                   (r'sv\.eq_ignore_ascii_case\("null"\)', 'string_eq_ignore_case_null(sv)', None, 'R8'),
+                   (r'sv == "~"', 'string_is_tilde(sv)', None, 'R8'),
+         ],
+         requires=[('map_access_invariant', 'ma_inv_parts(old(self).pending@, old(self).merge_stack@, old(self).ev.rest())')],
+         ensures=[('map_access_invariant_preserved', 'r is Ok ==> ma_inv_parts(final(self).pending@, final(self).merge_stack@, final(self).ev.rest())'),
+                  ('config_unchanged', 'final(self).cfg == old(self).cfg')],
+         proofs=[
+             dict(before='return Err(Error::DuplicateMappingKey { key, location });', nth=1, label='C04:duplicate_error_is_located_at_the_repeated_key',
+                  text='assert(is_duplicate && !self.flushing_merges && location == kloc);'),
+             dict(after='let location = key.location();', ghost=True, text='let ghost kloc = keynode_location(key);'),
+             dict(before='return Err(Error::DuplicateMappingKey { key, location });', nth=2, label='C04:duplicate_error_is_located_at_the_repeated_key',
+                  text='assert(is_duplicate && location == keynode_location(key_node));'),
+             dict(before='let mut key_node = capture_node(self.ev)?;', ghost=True, text='let ghost rk = self.ev.rest();'),
+             dict(after='let mut key_node = capture_node(self.ev)?;', text='lemma_knode_bounds(rk, 0);'),
+             dict(before='let value_node = capture_node(self.ev)?;', ghost=True, text='let ghost rv = self.ev.rest();'),
+             dict(after='let value_node = capture_node(self.ev)?;', text='lemma_knode_bounds(rv, 0);'),
+             dict(before='if self.enqueue_next_merge_batch() {', nth=1, ghost=True, text='let ghost ms0 = self.merge_stack@; let ghost p0 = self.pending@;'),
+             dict(after='if self.enqueue_next_merge_batch() {', nth=1, text='lemma_flush_step(ms0, p0);'),
+             dict(before='if self.enqueue_next_merge_batch() {', nth=2, ghost=True, text='let ghost ms0 = self.merge_stack@; let ghost p0 = self.pending@;'),
+             dict(after='if self.enqueue_next_merge_batch() {', nth=2, text='lemma_flush_step(ms0, p0);'),
+             dict(before='self.skip_one_node()?;', ghost=True, text='let ghost rb = self.ev.rest();'),
+             dict(after='self.skip_one_node()?;', label='C04:first_wins_discards_exactly_the_later_value',
+                  text='lemma_scan_bounds(rb, 1, 1); assert(is_duplicate && node_len(rb) is Some && self.ev.rest() == rb.skip(node_len(rb).unwrap()));'),
+         ],
+         loops={1: dict(header=r'^loop$', invariant=[
+                    ('map_access_invariant', 'ma_inv_parts(self.pending@, self.merge_stack@, self.ev.rest()) && self.cfg == old(self).cfg')])},
+         ),
 ]
+ITEMS = [x for x in ITEMS if x is not None]
